@@ -557,6 +557,7 @@ def run_C13(ctx):
         if kind in gens.ASYNC:
             cfg = async_cfg(r, kind, 'quick', nch=r.choice([1, 2, 3, 4]))
             cfg['chunk'] = max(4, min(cfg['chunk'], 64))
+            cfg['maxrel'] = max(cfg['maxrel'], 1.1)
         else:
             cfg = fft_cfg(r, kind, 'quick', nch=r.choice([1, 2, 3, 4]))
         nch = cfg['nch']
@@ -568,6 +569,10 @@ def run_C13(ctx):
         for j in range(k):
             if r.chance(0.4):
                 a.append(valid); b.append(valid); ann.append('valid')
+            if kind in gens.ASYNC and r.chance(0.4):
+                # a ramped ratio change is pending when the rejected call arrives: the rejected call must not consume it
+                st = "SETREL x=%s ramp=1" % f64hex(r.choice([1.02, 0.98, 1.05, 1.0]))
+                a.append(st); b.append(st); ann.append('valid')
             if nch > 1 and r.chance(0.35):
                 # a valid call with a mask that switches a channel off, then a malformed call *without* a mask in which exactly that
                 # channel is too short (a validation that looks at the mask of the previous call lets it through)
@@ -1233,8 +1238,28 @@ def run_C07(ctx):
             cfg = fft_cfg(r, k, tier)
             if r.chance(0.4):
                 cfg['chunk'] = r.choice([1, 1, 2, 3])
-        cases.append(gens.valid_history(r, k, tier, "acc_%04d_%s" % (i, k), nops=nops, cfg=cfg, ops_allowed=ops, no_mask=True,
-                                        sig="rand:%d" % r.below(9999)))
+        h = gens.valid_history(r, k, tier, "acc_%04d_%s" % (i, k), nops=nops, cfg=cfg, ops_allowed=ops, no_mask=True,
+                               sig="rand:%d" % r.below(9999))
+        if i % 3 == 1:
+            # a third of the streams contain rejected calls (a channel too short, a channel missing): they must not count
+            rb = r.fork('bad')
+            nchh = h.meta['cfg']['nch']
+            spec, mops = list(h.spec[:2]), []
+            for l, a in zip(h.spec[2:], h.meta['ops']):
+                if l.startswith('PIB') and rb.chance(0.2):
+                    shape = rb.below(3)
+                    il = ['next'] * nchh; ol = ['max'] * nchh
+                    if shape == 0:
+                        il[rb.below(nchh)] = rb.choice(['abs:0', 'next-1'])
+                    elif shape == 1:
+                        ol[rb.below(nchh)] = rb.choice(['abs:0', 'next-1'])
+                    else:
+                        il = il + ['next']
+                    spec.append("PIB mask=- inlen=%s outlen=%s sig=%s" % (";".join(il), ";".join(ol), h.meta['sig']))
+                    mops.append({'op': 'bad', 'envelope': True})
+                spec.append(l); mops.append(a)
+            h = Case(h.name, spec, dict(h.meta, ops=mops))
+        cases.append(h)
     # directed: the chunk size is changed before every call (alternating sizes), long enough for a per-call residue of a
     # frame to exceed the bound many times over
     for i, (k, ratio, a, b) in enumerate([('sincout', 3.0, 64, 32), ('sincin', 3.0, 64, 32), ('sincout', 1.5, 64, 32),
@@ -1732,6 +1757,20 @@ def run_C10(ctx):
                       "hook-visible state, internal buffers, counts and outputs of the suffix must be bit-identical", ALL_COMPONENTS)
     cases = []
     n = 42 if ctx.quick else 560
+    rl = getattr(ctx, 'replay_lines', None)
+    if rl:
+        # a stored history "... RESET suffix": the twin (fresh resampler + suffix) is rebuilt from it
+        n = 0
+        rl = [l for l in rl if not l.startswith('#')]
+        kv0 = parse_kv(next(l for l in rl if l.startswith('NEW')))
+        k_last = max(j for j, l in enumerate(rl) if l == 'RESET')
+        suffix = rl[k_last + 1:]
+        cfg = {'kind': kv0.get('kind'), 'nch': int(kv0.get('nch', 1))}
+        nm = kv0.get('interp') == 'plain'
+        ca = Case("replay_a", rl, {'cfg': cfg, 'nsuffix': len(suffix), 'kind': cfg['kind'], 'no_model': nm})
+        cb = Case("replay_b", rl[:2] + suffix, {'cfg': cfg, 'is_twin': True, 'no_model': nm})
+        ca.meta['twin'] = cb
+        cases += [ca, cb]
     for i in range(n):
         r = rng.fork("c10_%d" % i)
         k = gens.ALL[i % 7]
@@ -1760,7 +1799,7 @@ def run_C10(ctx):
     # directed: configurations where chunk/ratio is an integer (or within an ulp of one), the only place where two
     # formulas for the same request -- the constructor's and a recomputation -- can round differently
     INTQ = [(0.7, 1400), (1.05, 441), (0.35, 700), (1.4, 1400), (2.1, 441), (0.525, 441), (2.8, 1400), (4.2, 441), (0.7, 700), (1.05, 882)]
-    for i, (ratio, chunk) in enumerate(INTQ if not ctx.quick else INTQ[:6]):
+    for i, (ratio, chunk) in enumerate([] if rl else (INTQ if not ctx.quick else INTQ[:6])):
         for k in (('fastout', 'sincout') if not ctx.quick else (('fastout',) if i % 2 else ('sincout',))):
             r = rng.fork("c10_intq_%d_%s" % (i, k))
             cfg = async_cfg(r, k, 'quick')
@@ -1780,7 +1819,7 @@ def run_C10(ctx):
     # directed: new_with_interpolator with a hand-written implementation of the public SincInterpolator trait whose number of taps
     # is odd or not a multiple of 8 (the bundled kernels never are): implementation twins only, the model has no such kernel
     for i, (k, L) in enumerate([('sincin', 9), ('sincout', 15), ('sincin', 33), ('sincout', 7), ('sincin', 12), ('sincout', 21)]):
-        if ctx.quick and i >= 4:
+        if rl or (ctx.quick and i >= 4):
             break
         r = rng.fork("c10_plain_%d" % i)
         cfg = async_cfg(r, k, 'quick')
@@ -1833,10 +1872,16 @@ def run_C11(ctx):
                       "masked channels may be passed as empty slices and their sentinel-filled output buffers must come back untouched", ALL_COMPONENTS)
     cases = []
     n = 28 if ctx.quick else 350
-    for i in range(n):
+    # directed: several active channels while a ramped ratio change is in progress, Nearest and Linear, both polynomial types
+    DIRECTED = [('fastout', 4, '111'), ('fastin', 4, '101'), ('fastout', 3, '011'), ('fastout', 4, '1101'), ('fastin', 0, '11'), ('fastout', 1, '110')]
+    ndir = 3 if ctx.quick else len(DIRECTED)
+    for i in range(n + ndir):
         r = rng.fork("c11_%d" % i)
         k = gens.ALL[i % 7]
         nch = 1 + r.below(8 if not ctx.quick else 5)
+        if i >= n:
+            k, ddeg, dmask = DIRECTED[i - n]
+            nch = len(dmask)
         if k in gens.ASYNC:
             cfg = async_cfg(r, k, 'quick', nch=nch)
             cfg['chunk'] = max(4, min(cfg['chunk'], 48))
@@ -1847,6 +1892,9 @@ def run_C11(ctx):
         mask = "".join(r.choice("01") for _ in range(nch))
         if r.chance(0.15):
             mask = "0" * nch
+        if i >= n:
+            mask = dmask
+            cfg.update({'ratio': r.choice([1.0, 48000 / 44100]), 'maxrel': 2.0, 'chunk': 64})
         seed = r.below(10 ** 6)
         nops = 3 + r.below(5)
         head = ["T ty=%s" % cfg['ty']]
@@ -1857,6 +1905,44 @@ def run_C11(ctx):
             nops += 3
             kinds_seq = [r.below(8) for _ in range(nops)]
         chunk_seq = [1 + r.below(max(1, cfg.get('chunk', 1))) for _ in range(nops)]
+        pre = [[] for _ in range(nops)]
+        rel_seq = [1.0] * nops
+        if k in gens.ASYNC and (i % 2 == 1 or i >= n):
+            # ratio changes in mid-stream, ramped and not (the ramp state is shared by all channels; each channel must still be
+            # what a single-channel resampler with the same history produces); every polynomial degree in turn
+            cfg['maxrel'] = max(cfg['maxrel'], 1.25)
+            if k.startswith('fast'):
+                cfg['deg'] = (i // 7) % 5
+            nops += 3
+            kinds_seq = [(r.below(8) if k.startswith('sinc') else r.below(6)) if r.chance(0.65) else 8 + r.below(2) for _ in range(nops)]
+            if 8 not in kinds_seq[:nops - 1]:
+                kinds_seq[0] = 8
+            if i >= n:
+                cfg['deg'] = ddeg
+                nops = 8
+                kinds_seq = [0, 8, 0, 0, 8, 0, 4, 0]
+            chunk_seq = [1 + r.below(max(1, cfg.get('chunk', 1))) for _ in range(nops)]
+            rel_seq = [r.choice([1.02, 0.97, 1.2, 0.85, 1.0, 1.25, 0.8]) for _ in range(nops)]
+            if i >= n:
+                rel_seq = [1.0, 1.02, 1.0, 1.0, 0.99, 1.0, 1.0, 1.0]
+            pre = [[] for _ in range(nops)]
+            trk = RatioTracker(cfg)
+            for j in range(nops):
+                t = kinds_seq[j]
+                if t in (8, 9):
+                    trk.set_ratio(min(max(trk.orig * rel_seq[j], trk.lo), trk.hi), t == 8)
+                elif t in (6, 7):
+                    trk.chunk = chunk_seq[j]
+                else:
+                    ok, _ = trk.envelope()
+                    if i >= n:
+                        ok = True       # directed: ramps of 1-2 % on chunks of 64 frames (far from the recorded ramp defects)
+                    if not ok:
+                        pre[j].append("SETRATIO x=%s ramp=0" % f64hex(trk.target)); trk.set_ratio(trk.target, False)
+                        ok, _ = trk.envelope()
+                        if not ok:
+                            pre[j] = ["RESET"]; trk.reset()
+                    trk.processed()
 
         def body(nchan, mk, sig, empty_masked):
             lines = []
@@ -1866,7 +1952,10 @@ def run_C11(ctx):
                 il = ";".join('next' if act[c] else ('abs:0' if empty_masked else 'next') for c in range(nchan))
                 ol = ";".join('max' if act[c] else rr.choice(['abs:0', 'abs:5']) for c in range(nchan))
                 t = kinds_seq[j]
-                if t < 4:
+                lines.extend(pre[j])
+                if t in (8, 9):
+                    lines.append("SETREL x=%s ramp=%d" % (f64hex(rel_seq[j]), int(t == 8)))
+                elif t < 4:
                     lines.append("PIB mask=%s inlen=%s outlen=%s sig=%s" % (mk or '-', il, ol, sig))
                 elif t == 4:
                     lines.append("PROCESS mask=%s inlen=%s sig=%s" % (mk or '-', il, sig))
@@ -1879,7 +1968,7 @@ def run_C11(ctx):
                     lines.append("SETCHUNK n=%d" % chunk_seq[j])
             return lines
         sig = "rand:%d" % seed
-        a = Case("ch_%04d_%s_masked" % (i, k), head + [new_line(cfg)] + body(nch, mask, sig, True), {'cfg': cfg, 'mask': mask, 'kind': k})
+        a = Case("ch_%04d_%s_masked" % (i, k), head + [new_line(cfg)] + body(nch, mask, sig, True), {'cfg': cfg, 'mask': mask, 'kind': k if i < n else k + '/ramp'})
         b = Case("ch_%04d_%s_full" % (i, k), head + [new_line(cfg)] + body(nch, None, sig, False), {'cfg': cfg, 'is_twin': True})
         singles = []
         for c in range(nch):
@@ -2080,7 +2169,11 @@ def run_C17(ctx):
         r = rng.fork("c17big_%d" % i)
         k = ['sincin', 'sincout'][i % 2]
         cfg = async_cfg(r, k, 'quick', ty='f64', nch=1)
-        cfg.update(chunk=r.choice([1024, 2048, 4096]), factor=r.choice([128, 256, 512]), itype=r.choice([0, 1, 2]), slen=64, L=64,
+        # every other pair: a long filter with an oversampling factor that is not a power of two (the table positions x / factor
+        # are then not exact in f32: precision loss in the table construction shows here and grows with the length)
+        slen, factor = [(64, r.choice([128, 256, 512])), (256, 160), (64, r.choice([128, 256, 512])), (512, 100),
+                        (64, r.choice([128, 256, 512])), (1024, 147), (64, r.choice([128, 256, 512])), (256, 1000)][i % 8]
+        cfg.update(chunk=r.choice([1024, 2048, 4096]), factor=factor, itype=r.choice([0, 1, 2]) if slen == 64 else [0, 3, 1, 2][(i // 2) % 4], slen=slen, L=slen,
                    interp='default', maxrel=1.0, ratio=pick_ratio(r, 0.5, 2.0))
         sig = "sine:%s:%s" % (f64hex(r.uniform(0.05, 0.2)), f64hex(r.uniform(0, 6.28)))
         lines = ["T ty=f64", new_line(cfg)] + ["PIB mask=- inlen=next outlen=next sig=%s" % sig for _ in range(3)]
@@ -2226,9 +2319,18 @@ def run_C18(ctx):
             cfg = fft_cfg(r, k, 'quick')
         # a quarter of the groups stream values in the subnormal range of the sample type (a floating-point mode left behind by
         # another instance on the thread - flush-to-zero, a rounding mode - shows there and nowhere else)
+        if i % 4 == 1:
+            cfg['ty'] = ['f32', 'f64'][(i // 4) % 2]
         h = gens.valid_history(r.fork('h'), k, 'quick', "th_%04d_%s" % (i, k), cfg=cfg, allow_out_of_envelope=False,
                                sig=("tiny:%d" % r.below(99999)) if i % 4 == 1 else None)
         warm = warm_variants(r.fork('w'), cfg)
+        if i % 2 == 1:
+            # the neighbours on the thread are not only of the kind under test: a sinc resampler (CPU-dispatched kernel, same sample
+            # type) and a synchronous one are built and used first
+            rw = r.fork('w2')
+            csn = async_cfg(rw, rw.choice(['sincin', 'sincout']), 'quick', ty=cfg['ty']); csn['interp'] = 'default'
+            cfn = fft_cfg(rw, 'fftin', 'quick', ty=cfg['ty'])
+            warm = ["WARM" + new_line(csn)[3:], "WARM" + new_line(cfn)[3:]] + warm
         cases += group("th_%04d_%s" % (i, k), h.spec, warm, cfg, r.choice([2, 3, 4, 8, 16]), r.choice(['odd', 'even']))
 
     # directed: downsampling sinc resamplers (the effective cutoff depends on the ratio) built right after a near miss
@@ -2943,12 +3045,12 @@ PROPS = {
         'judge_replay': lambda c: judge_C04(c) if 'ops' in c.meta else [],
         'pinned': ['C04_fast_in_counts_R', 'C04_fast_out_counts_R', 'C04_fast_in_next_le_max_R', 'C04_sinc_in_next_le_max_R', 'C04_fast_out_next_le_max_R',
                    'C04_sinc_in_counts_R', 'C04_sinc_out_counts_R', 'C04_fft_in_counts_R', 'C04_fft_out_counts_R', 'C04_fft_inout_counts',
-                   'C04_fast_in_steps_counts_R', 'C04_sinc_in_steps_counts_R', 'C04_fast_out_steps_counts_R', 'C04_sinc_out_steps_counts_R', 'C04_fft_out_next_le_max_R', 'C04_fft_in_next_le_max_R', 'C04_fft_inout_next_eq_max', 'C04_sinc_out_next_le_max_R', 'C04_sinc_out_li_ok', 'C04_f32_quotients_exact', 'C04_fft_out_counts_binary', 'C04_fft_in_counts_binary'],
-        'unproved': ['next <= max in binary64 (the inequalities are proved over R; the fix of D7 makes both sides the same association, '
-                     'monotonicity of rounding is not formalised)', 'next <= max for the sinc fixed-output and the FFT types: by the predicate on every trace',
+                   'C04_fast_in_steps_counts_R', 'C04_sinc_in_steps_counts_R', 'C04_fast_out_steps_counts_R', 'C04_sinc_out_steps_counts_R', 'C04_fft_out_next_le_max_R', 'C04_fft_in_next_le_max_R', 'C04_fft_inout_next_eq_max', 'C04_sinc_out_next_le_max_R', 'C04_sinc_out_li_ok', 'C04_f32_quotients_exact', 'C04_fft_out_counts_binary', 'C04_fft_in_counts_binary', 'C04_fast_in_next_le_max_B64', 'C04_sinc_in_next_le_max_B64', 'C04_fast_in_next_le_max_accepted_B64', 'C04_fast_in_next_le_max_B64_example'],
+        'unproved': ['next <= max in binary64 for the types other than FastFixedIn and SincFixedIn (those two: proved with Flocq by monotonicity of rounding, '
+                     'overflow and saturating cast included; the others are proved over R only)',
                      'ratio changes outside the envelope'],
-        'assumptions': ['ideal arithmetic'],
-        'trusted_base': ['Reals axioms, Flocq Ztrunc/Zceil lemmas'],
+        'assumptions': ['ideal arithmetic, except C04_fast_in_next_le_max_B64 (Flocq binary64)'],
+        'trusted_base': ['Reals axioms, Flocq Ztrunc/Zceil lemmas; Flocq 4.1 BinarySingleNaN (Bmult_correct, Bplus_correct, Btrunc_correct, round_le, mult_bpow_exact_FLT)'],
     },
     'C06': {
         'run': run_C06,
@@ -2996,6 +3098,7 @@ PROPS = {
     },
     'C10': {
         'run': run_C10,
+        'replay_aware': True,
         'pinned': ['C10_reset_fresh_fast_in', 'C10_reset_fresh_fast_out', 'C10_reset_fresh_sinc_in', 'C10_reset_fresh_sinc_out',
                    'C10_reset_fresh_fft_in', 'C10_reset_fresh_fft_out', 'C10_reset_fresh_fft_inout', 'C10_reset_after_set_ratio',
                    'C10_reset_after_set_rel', 'C10_reset_after_set_chunk', 'C10_reset_idempotent', 'C10_reset_after_pib_async', 'C10_reset_after_pib_fft'],
